@@ -1,4 +1,5 @@
 import CnbVerif.Base.CnbData
+import CnbVerif.Base.Proto
 import CnbVerif.Spec.CnbSchemas
 /-!
 C07, specification side: what a sequence of builder calls is **meant** to construct (from the property text and the
@@ -116,6 +117,47 @@ def intendedLaunchX (calls : List LCallX) : Launch := intendedLaunch (calls.flat
 
 /-- the documents of one `LaunchBuilder`: one per `build()` of the sequence, and the one built at the end -/
 def intendedLaunchDocs (steps : List (Step LCallX)) : List Launch := intendedBuilds intendedLaunchX (steps ++ [.build])
+
+/-! ## layers constructed through the layer APIs
+
+A buildpack constructs a layer under a name: with `cached_layer` / `uncached_layer` it states `launch` and `build` (`cache` is what the
+call says) and may then write a metadata table; with the trait API it states all three types and returns the metadata. The CNB spec
+gives the layer `name` the file `<layers>/<name>.toml`; an independent reader of THAT file must recover the layer types and the
+metadata table constructed for that name, whatever other layers were constructed in the same directory. -/
+
+inductive LayerOp where
+  /-- `cached_layer(name, {launch, build})`, an existing layer kept; then `write_metadata(table)` if given -/
+  | cachedKept (name : Bytes) (launch build : Bool) (written : Option Table)
+  /-- `uncached_layer(name, {launch, build})` (never restored: always a new layer); then `write_metadata(table)` if given -/
+  | uncached (name : Bytes) (launch build : Bool) (written : Option Table)
+  /-- `handle_layer(name, layer)`: `layer.types()`, and the metadata its `create` / `update` returns -/
+  | handled (name : Bytes) (types : LayerTypes) (returned : Option Table)
+
+def LayerOp.name : LayerOp → Bytes
+  | .cachedKept n _ _ _ => n
+  | .uncached n _ _ _ => n
+  | .handled n _ _ => n
+
+/-- what one construction makes of its layer, given what the layer was before (`none`: it did not exist): the types are the stated
+ones; the metadata is the table written / returned — a kept cached layer nobody writes metadata for keeps the metadata it had -/
+def LayerOp.apply (before : Option LayerMeta) : LayerOp → LayerMeta
+  | .cachedKept _ l b w => ⟨some ⟨l, b, true⟩, match w with | some t => some t | none => before.bind (·.mdata)⟩
+  | .uncached _ l b w => ⟨some ⟨l, b, false⟩, w⟩
+  | .handled _ ty r => ⟨some ty, r⟩
+
+/-- the layer `name` as a sequence of constructions leaves it: only those naming it count, in order -/
+def intendedLayer (name : Bytes) (before : Option LayerMeta) : List LayerOp → Option LayerMeta
+  | [] => before
+  | op :: rest => if op.name = name then intendedLayer name (some (op.apply before)) rest else intendedLayer name before rest
+
+/-- the layer names of a sequence, each once, in order of first use -/
+def layerNames : List LayerOp → List Bytes
+  | [] => []
+  | op :: rest => op.name :: (layerNames rest).filter (fun m => m ≠ op.name)
+
+/-- the file name the CNB spec gives a layer's content metadata inside the layers directory: `<name>.toml` (the bytes of `.toml`
+are 2e 74 6f 6d 6c) -/
+def specLayerFile (name : Bytes) : Bytes := name ++ [0x2e, 0x74, 0x6f, 0x6d, 0x6c]
 
 /-! ## exec.d output: the last value given for every key -/
 
